@@ -53,7 +53,7 @@ void prepareInputs(Ctx& ctx, const Scenario& sc) {
         return;
     }
     const unsigned long wmask = sc.isFloat() ? ((1UL << 22) - 1) : ~0UL;   // weights must be exact in the tree's real type
-    if (sc.kernel == "weight_s35") {   // weight derived from the original index inside the kernel: same function for both trees
+    if (sc.kernel == "weight_s35" || sc.kernel == "weight_f35") {   // weight derived from the original index inside the kernel: same function for both trees
         for (size_t i = 0; i < sc.src.size(); ++i) ctx.inputs[0].push_back({{sc.src[i][0], sc.src[i][1], sc.src[i][2], double(wkWeight(sc.runKey, 0, long(i)))}});
         for (size_t i = 0; i < sc.tgt.size(); ++i) ctx.inputs[1].push_back({{sc.tgt[i][0], sc.tgt[i][1], sc.tgt[i][2], double(wkWeight(sc.runKey, 0, long(i)))}});
         return;
